@@ -6,19 +6,26 @@
    writer with layout knobs and error variants, debug and release builds, results compared as
    sorted maps with the file set the image was built from).
 
-   The layout relation [arc_layout a files] speaks about the archive a = BinArchive::from_bytes
-   of the image: label Count on exactly one address holding |files|, label Info on exactly one
-   address followed by one 16-byte record (string cell, index, size, offset) per file, body i =
-   data[offset + pad, + size) with pad = 0x60 iff the first word of the data is 0, names distinct.
-   Records may come in any order and bodies may be placed anywhere (aligned or not, overlapping
-   or not, empty).  Byte level: C16_extract_from_file speaks about ANY byte string that conforms to
-   the bin-archive format relation of C01 (Proofs/BinFormatSpec.v: tables in any order, strings anywhere
-   in the text section) with a content laid out as an arc; it rests on C01's parser correctness
-   (Proofs/TextBinBridge.v: parsed_obs_equal) and has no premise about BinFormat.from_bytes.
-   C16_extract_from_bytes is the same statement for a reader who already holds the parsed archive. *)
+   The layout relation [arc_layout a files] speaks about the archive a = BinArchive::from_bytes of the image: Count and Info
+   are looked up with find_label_address - since the repair 10408e9 the LOWEST address whose bucket contains the label
+   (C16_lookup_is_lowest; with the label on exactly one address, that address: C16_layout_unique), independent of the
+   hash order of the map; the word at the Count address is |files|; at the Info address follows one 16-byte record (string
+   cell, index, size, offset) per file; body i = data[offset + pad, + size), names distinct.  Records may come in any
+   order and bodies may be placed anywhere (aligned or not, overlapping or not, empty; an EMPTY range is the empty body
+   wherever it points, also beyond the data region - the code reads no byte).
+   "Padded header present" is the DETECTION RULE of arc.rs:23, not "0x60 zero bytes": pad = 0x60 iff the first u32 of the
+   data region is 0 ([arc_pad]).  An un-padded image whose first data word happens to be 0 is therefore outside the
+   relation (the code would add 0x60 to its offsets); the property text ("when one is present") leaves this open, the
+   relation adopts the code's rule.
+   Byte level: C16_file_reads_content - on ANY byte string that conforms to the bin-archive format relation of C01
+   (Proofs/BinFormatSpec.v: tables in any order, strings anywhere in the text section) the byte-level reader is the
+   archive-level reader on the file's content; it rests on C01's parser correctness (Proofs/TextBinBridge.v:
+   parsed_obs_equal) and has no premise about BinFormat.from_bytes.  Every archive-level theorem below therefore speaks
+   about files; C16_extract_from_file, C16_file_no_count, C16_file_no_info are spelled out. *)
 From Coq Require Import List NArith ZArith Bool Permutation.
 From Mila Require Import Lib.Bytes Lib.Machine Model.BinArchive Model.BinStreams Model.BinFormat Model.Arc
-  Proofs.BinFormatSpec Proofs.ObsEqual Proofs.TextBinBridge Proofs.ArcProofs Proofs.ArcTotal Proofs.ArcBytes.
+  Proofs.BinFormatSpec Proofs.FindLabel Proofs.ObsEqual Proofs.TextBinBridge Proofs.ArcProofs Proofs.ArcTotal Proofs.ArcBytes.
+From Mila Require Proofs.C05Rejects.
 Import ListNotations.
 Local Open Scope N_scope.
 
@@ -43,13 +50,20 @@ Proof. exact arc_file_no_count. Qed.
 Theorem C16_file_no_info : forall m f c, conforms LE f c ->
   label_addrs (content_archive LE c) COUNT <> [] -> label_addrs (content_archive LE c) INFO = [] -> arc_from_bytes m f = Err ENoInfo.
 Proof. exact arc_file_no_info. Qed.
-(* the general transfer to FILES: with Count and Info on exactly one address each, the byte-level reader on a conforming file is
-   the archive-level reader on the file's content - C16_record_without_name, C16_range_outside, C16_offset_overflow below
-   therefore speak about files as well *)
-Theorem C16_file_reads_content : forall m f c cc i, conforms LE f c ->
-  label_addrs (content_archive LE c) COUNT = [cc] -> label_addrs (content_archive LE c) INFO = [i] ->
+(* the general transfer to FILES: the byte-level reader on a conforming file is the archive-level reader on the file's
+   content (no uniqueness of the labels needed since the lookup is a function of the label map) - C16_record_without_name,
+   C16_range_outside, C16_offset_overflow, C16_count_too_large below therefore speak about files as well *)
+Theorem C16_file_reads_content : forall m f c, conforms LE f c ->
   arc_from_bytes m f = arc_from_archive m (content_archive LE c).
 Proof. exact arc_file_reads_content. Qed.
+(* Count / Info: the lowest address whose bucket contains the label; the unique-address reading is an instance *)
+Theorem C16_lookup_is_lowest : forall a l c, find_label_address a l = Some c <->
+  In c (label_addrs a l) /\ forall y, In y (label_addrs a l) -> c <= y.
+Proof. exact find_label_lowest. Qed.
+Theorem C16_layout_unique : forall a files c i w0 recs,
+  label_addrs a COUNT = [c] -> label_addrs a INFO = [i] -> read_u32 a 0 = Ok w0 -> read_u32 a c = Ok (lenL files) ->
+  table_from a i (arc_pad w0) 0 recs -> Forall2 (holds_file a) recs files -> NoDup (map fst files) -> arc_layout a files.
+Proof. exact arc_layout_unique. Qed.
 (* the relation (and so the result) does not depend on the hash order of the label map *)
 Theorem C16_layout_any_hash_order : forall a a' files,
   a_data a' = a_data a -> a_text a' = a_text a -> a_endian a' = a_endian a -> Permutation (a_labels a) (a_labels a') ->
@@ -79,6 +93,21 @@ Theorem C16_range_outside : forall m a c i w0 pre en post,
   1 <= ae_size en -> size a < ae_address en + ae_size en ->
   arc_from_archive m a = Err EOob.
 Proof. exact arc_range_outside. Qed.
+(* the general sentence "a record whose range leaves the data region is reported as an error": the table is fully readable,
+   the count is the number of its records and SOME record has a non-empty range ending beyond the data region *)
+Theorem C16_any_range_outside : forall m a c i w0 recs en,
+  find_label_address a COUNT = Some c -> find_label_address a INFO = Some i ->
+  read_u32 a 0 = Ok w0 -> read_u32 a c = Ok (lenL recs) ->
+  table_from a i (arc_pad w0) 0 recs ->
+  In en recs -> 1 <= ae_size en -> size a < ae_address en + ae_size en ->
+  arc_from_archive m a = Err EOob.
+Proof. exact arc_any_range_outside. Qed.
+(* the table itself runs off the data region: Count declares n >= 1 records but n 16-byte records do not fit between the
+   Info address and the end of the data - some error (out of bounds at the record that leaves the data, or an earlier one) *)
+Theorem C16_count_too_large : forall m a c i n,
+  find_label_address a COUNT = Some c -> find_label_address a INFO = Some i ->
+  read_u32 a c = Ok n -> 1 <= n -> size a < i + 16 * n -> exists er, arc_from_archive m a = Err er.
+Proof. exact C05Rejects.arc_count_rejected. Qed.
 (* finding F9: an offset that no longer fits a u32 once the padding is added is out of bounds, in both modes *)
 Theorem C16_offset_overflow : forall m a c i w0 n pre name idx sz off,
   find_label_address a COUNT = Some c -> find_label_address a INFO = Some i ->
@@ -97,9 +126,8 @@ Theorem C16_fuel_never_exhausted : forall m a, arc_from_archive m a <> Err EOutO
 Proof. exact arc_from_archive_fuel_never_exhausted. Qed.
 
 (* ---- the reader sees observations only ---- *)
-Theorem C16_reader_sees_observations_only : forall m a a' c i,
-  obs_equal a a' -> a_endian a' = a_endian a -> label_addrs a COUNT = [c] -> label_addrs a INFO = [i] ->
-  arc_from_archive m a' = arc_from_archive m a.
+Theorem C16_reader_sees_observations_only : forall m a a',
+  obs_equal a a' -> a_endian a' = a_endian a -> arc_from_archive m a' = arc_from_archive m a.
 Proof. exact arc_from_archive_obs_equal. Qed.
 
 (* ---- non-vacuity: two images of the same two files ---- *)
@@ -150,6 +178,72 @@ Proof.
 Qed.
 Example C16_sample_empty_last_extract : forall m, arc_from_archive m C16_sample_empty_last = Ok [([101], [])].
 Proof. intros m. exact (arc_extract m _ _ (proj2 C16_sample_empty_last_layout)). Qed.
+(* the label Count on TWO addresses (24 comes first in the map, 4 is the lowest): the lookup answers 4 (the code before the
+   repair 10408e9 answered in hash order - here 24, whose word 9 would make the table run off the data); the record has an
+   empty range *)
+Definition C16_sample_two_counts : archive :=
+  {| a_data := [7;0;0;0] ++ [1;0;0;0] ++ [0;0;0;0; 0;0;0;0; 0;0;0;0; 24;0;0;0] ++ [9;0;0;0];
+     a_text := [(8, [101])]; a_ptrs := []; a_labels := [(24, [COUNT]); (4, [COUNT]); (8, [INFO])]; a_cstrs := []; a_endian := LE |}.
+Example C16_sample_two_counts_lowest :
+  find_label_address C16_sample_two_counts COUNT = Some 4 /\ find_label_address_first C16_sample_two_counts COUNT = Some 24 /\
+  arc_layout C16_sample_two_counts [([101], [])] /\ forall m, arc_from_archive m C16_sample_two_counts = Ok [([101], [])].
+Proof.
+  assert (L : arc_layout C16_sample_two_counts [([101], [])]).
+  { exists 4, 8, 7, [mkEntry [101] 0 0 24]. repeat split; try reflexivity.
+    - intros j en Hj. destruct j as [|j]; cbn in Hj; [|destruct j; discriminate]. inversion Hj; subst. exists 24. vm_compute. repeat split; reflexivity.
+    - repeat constructor.
+    - repeat constructor; cbn; intuition discriminate. }
+  split; [reflexivity|]. split; [reflexivity|]. split; [exact L|]. intros m. exact (arc_extract m _ _ L).
+Qed.
+(* a record of size 0 whose offset points far beyond the 24-byte data region: inside the relation (the empty range holds the
+   empty body), extracted as an empty entry - no byte is read *)
+Definition C16_sample_empty_beyond : archive :=
+  {| a_data := [7;0;0;0] ++ [1;0;0;0] ++ [0;0;0;0; 0;0;0;0; 0;0;0;0; 232;3;0;0];
+     a_text := [(8, [101])]; a_ptrs := []; a_labels := [(4, [COUNT]); (8, [INFO])]; a_cstrs := []; a_endian := LE |}.
+Example C16_sample_empty_beyond_extract :
+  arc_layout C16_sample_empty_beyond [([101], [])] /\ forall m, arc_from_archive m C16_sample_empty_beyond = Ok [([101], [])].
+Proof.
+  assert (L : arc_layout C16_sample_empty_beyond [([101], [])]).
+  { exists 4, 8, 7, [mkEntry [101] 0 0 1000]. repeat split; try reflexivity.
+    - intros j en Hj. destruct j as [|j]; cbn in Hj; [|destruct j; discriminate]. inversion Hj; subst. exists 1000. vm_compute. repeat split; reflexivity.
+    - constructor; [|constructor]. split; [reflexivity|]. split; [reflexivity|]. right. reflexivity.
+    - repeat constructor; cbn; intuition discriminate. }
+  split; [exact L|]. intros m. exact (arc_extract m _ _ L).
+Qed.
+(* the hypotheses of the error theorems are satisfiable - each outcome is obtained THROUGH the theorem *)
+(* Count = 1, the name cell of record 0 holds no string *)
+Definition C16_sample_no_name : archive :=
+  {| a_data := [7;0;0;0] ++ [1;0;0;0] ++ [0;0;0;0; 0;0;0;0; 0;0;0;0; 24;0;0;0];
+     a_text := []; a_ptrs := []; a_labels := [(4, [COUNT]); (8, [INFO])]; a_cstrs := []; a_endian := LE |}.
+Example C16_example_record_without_name : forall m, arc_from_archive m C16_sample_no_name = Err EMissingName.
+Proof.
+  intros m. apply (arc_missing_name m C16_sample_no_name 4 8 7 1 []); try reflexivity.
+  intros j en Hj. destruct j; discriminate.
+Qed.
+(* one record with the non-empty range [26, 29) in a 24-byte data region *)
+Definition C16_sample_range : archive :=
+  {| a_data := [7;0;0;0] ++ [1;0;0;0] ++ [0;0;0;0; 0;0;0;0; 3;0;0;0; 26;0;0;0];
+     a_text := [(8, [101])]; a_ptrs := []; a_labels := [(4, [COUNT]); (8, [INFO])]; a_cstrs := []; a_endian := LE |}.
+Example C16_example_range_outside : forall m, arc_from_archive m C16_sample_range = Err EOob.
+Proof.
+  intros m. apply (arc_any_range_outside m C16_sample_range 4 8 7 [mkEntry [101] 0 3 26] (mkEntry [101] 0 3 26)); try reflexivity.
+  - intros j en Hj. destruct j as [|j]; cbn in Hj; [|destruct j; discriminate]. inversion Hj; subst. exists 26. vm_compute. repeat split; reflexivity.
+  - left. reflexivity.
+  - vm_compute. discriminate.
+Qed.
+(* Count = 2 but a single 16-byte record fits after Info *)
+Definition C16_sample_count : archive :=
+  {| a_data := [7;0;0;0] ++ [2;0;0;0] ++ [0;0;0;0; 0;0;0;0; 0;0;0;0; 24;0;0;0];
+     a_text := [(8, [101])]; a_ptrs := []; a_labels := [(4, [COUNT]); (8, [INFO])]; a_cstrs := []; a_endian := LE |}.
+Example C16_example_count_too_large : forall m, exists er, arc_from_archive m C16_sample_count = Err er.
+Proof. intros m. apply (C05Rejects.arc_count_rejected m C16_sample_count 4 8 2); try reflexivity; vm_compute; discriminate. Qed.
+(* the F9 image through C16_offset_overflow: padded header, offset 0xFFFFFFF0 + 0x60 does not fit a u32 *)
+Example C16_example_offset_overflow : forall m, arc_from_archive m f9_archive = Err EOob.
+Proof.
+  intros m. apply (arc_offset_overflow m f9_archive 0x60 0x64 0 1 [] [102] 0 1 0xFFFFFFF0); try reflexivity.
+  - intros j en Hj. destruct j; discriminate.
+  - vm_compute. discriminate.
+Qed.
 (* a FILE (93 bytes, un-padded, one packed file "b" = 9 8 7): it conforms to the format with an arc-shaped content, and
    the byte-level reader extracts exactly that file *)
 Definition C16_sample_file : bytes :=
